@@ -52,7 +52,10 @@ def setup():
         k = len(DRAWS["calls"])
         DRAWS["calls"].append({"n": n, "frac": frac, "replace": replace, "axis": axis, "ignore_index": ignore_index, "rows": len(self)})
         idx = DRAWS["vectors"][k % len(DRAWS["vectors"])]
-        out = self.iloc[list(idx)]
+        # contract of sample(frac=1, replace=True): len(self) rows, each at an arbitrary position of THIS frame (the scripted vector is
+        # folded into the frame's own row range, so a frame of another size than expected is answered by contract, not by an IndexError)
+        m = len(self)
+        out = self.iloc[[i % m for i in list(idx)[:m]] + [0] * max(0, m - len(idx))] if m else self.iloc[[]]
         return out.reset_index(drop=True) if ignore_index else out
 
     pd.DataFrame.sample = sample
@@ -85,12 +88,25 @@ def jobs(tier, seed):
     cv = rnd.sample(v3, 3) if quick else v3[::2]
     for ti, v in enumerate(cv):
         js.append({"id": f"draw-n3-ctrl-{ti}", "kind": "draw", "n": 3, "groups": [0, 1, 0], "ctrl": [0, 0, 1], "draws": [[list(v)]], "q": [0.25, 0.75]})
+    # a numeric sensitive feature with a MISSING value in one row: that row is in no group, but every resample still draws from all n rows
+    for ti, (g, v) in enumerate((([0, NAN_GROUP, 1], (1, 1, 2)), ([NAN_GROUP, 0, 1], (0, 2, 1)), ([0, 1, NAN_GROUP], (2, 2, 0))) if quick else
+                                [(g, v) for g in ([0, NAN_GROUP, 1], [NAN_GROUP, 0, 1], [0, 1, NAN_GROUP], [0, 0, NAN_GROUP]) for v in v3[::3]]):
+        js.append({"id": f"draw-n3-nanfeature-{ti}", "kind": "draw", "n": 3, "groups": g, "ctrl": None, "draws": [[list(v)]], "q": [0.25, 0.75]})
     js.append({"id": "seeds", "kind": "seeds", "nseeds": 3 if quick else 30, "seed": seed})
     return js
 
 
 G = ["ga", "gb"]
 K = ["k0", "k1"]
+
+
+NAN_GROUP = 9  # a row whose (numeric) sensitive feature value is missing: it belongs to no group but still counts towards `overall`
+
+
+def _sf(groups):
+    if NAN_GROUP in groups:
+        return np.array([math.nan if g == NAN_GROUP else float(g) for g in groups])
+    return [G[g] for g in groups]
 
 
 def _const_metric_factory(c):
@@ -107,7 +123,7 @@ def _frame(n, groups, ctrl, p, c, q, nb, rs=0):
         kw["control_features"] = [K[v] for v in ctrl]
     return fm.MetricFrame(metrics={"mp": fm.mean_prediction, "cnt": fm.count, "const": _const_metric_factory(c)}, y_true=[0] * n,
                           y_pred=np.array(p, dtype=object) if any(core.is_sym(v) for v in p) else np.array(p, dtype=float),
-                          sensitive_features=[G[g] for g in groups], n_boot=nb, ci_quantiles=q, random_state=rs, **kw)
+                          sensitive_features=_sf(groups), n_boot=nb, ci_quantiles=q, random_state=rs, **kw)
 
 
 def _quantile(vals, q):
@@ -137,6 +153,7 @@ def run_job(job, deadline):
         _seeds(acc, job, deadline)
         return acc.result()
     n, groups, ctrl, q = job["n"], job["groups"], job["ctrl"], job["q"]
+    NUMERIC[0] = NAN_GROUP in groups
     for di, draw in enumerate(job["draws"]):
         nb = len(draw)
 
@@ -161,7 +178,7 @@ def run_job(job, deadline):
                 res[f"ratio:{meth}"] = (mf.ratio(method=meth), mf.ratio_ci(method=meth))
             # oracle values per resample (mean prediction of the drawn rows of each cell), then the quantile
             want = {}
-            cells = sorted(set((None if ctrl is None else ctrl[i], groups[i]) for i in range(n)))
+            cells = sorted(set((None if ctrl is None else ctrl[i], groups[i]) for i in range(n) if groups[i] != NAN_GROUP))
             for cell in cells:
                 per = []
                 for vec in draw:
@@ -265,7 +282,11 @@ def run_job(job, deadline):
 
 def mfkey(cell, ctrl):
     cv, g = cell
-    return G[g] if ctrl is None else (K[cv], G[g])
+    gl = float(g) if NUMERIC[0] else G[g]
+    return gl if ctrl is None else (K[cv], gl)
+
+
+NUMERIC = [False]
 
 
 def _seeds(acc, job, deadline):
@@ -370,6 +391,7 @@ def replay(cex):
         return {"reproduced": bool(bad), "detail": "; ".join(bad)}
     setup()
     n, groups, ctrl, q = job["n"], job["groups"], job["ctrl"], job["q"]
+    NUMERIC[0] = NAN_GROUP in groups
     draw = ex["draw"]
     p = [float(F(mdl.get(f"p{i}", "0"))) for i in range(n)]
     c = float(F(mdl.get("c", "0")))
@@ -386,7 +408,7 @@ def replay(cex):
         return {"reproduced": False, "detail": "resamples not drawn through DataFrame.sample (unmodelled randomness source)"}
     if not (len(calls) == len(draw) and all(cl["frac"] == 1 and cl["replace"] is True and cl["ignore_index"] is True for cl in calls)):
         bad.append(f"DataFrame.sample called as {calls}")
-    cells = sorted(set((None if ctrl is None else ctrl[i], groups[i]) for i in range(n)))
+    cells = sorted(set((None if ctrl is None else ctrl[i], groups[i]) for i in range(n) if groups[i] != NAN_GROUP))
     for k, qq in enumerate(q):
         for cell in cells:
             per = []
